@@ -18,10 +18,30 @@ pub fn c01(ctx: &Ctx, subj: &dyn DynSubject, ty: &Ty, rep: &mut Report) {
             Ok(Err(e)) => Err(Fail::new(&format!("full-error:{}", err_name(&e)), format!("deserialize_full failed on the bytes just serialized: {:?}", e))),
             Ok(Ok(v2)) => {
                 if v2 != *v {
-                    Err(Fail::new("full-mismatch", format!("full-copy round trip changed the value: got {}", v2.show())))
-                } else {
-                    Ok(())
+                    return Err(Fail::new("full-mismatch", format!("full-copy round trip changed the value: got {}", v2.show())));
                 }
+                // composition: the value written twice on one writer (through one `&mut dyn Write`) is read back twice
+                // from one reader, each stream being self-contained
+                if bytes.len() <= 1 << 16 {
+                    let mut two: Vec<u8> = Vec::new();
+                    let wrote = guard(|| {
+                        let w: &mut dyn std::io::Write = &mut two;
+                        subj.ser(v, w).and_then(|a| subj.ser(v, w).map(|b| (a, b)))
+                    });
+                    log.extra_evals += 1;
+                    match wrote {
+                        Ok(Ok((a, b))) if a == bytes.len() && b == bytes.len() && two.len() == 2 * bytes.len() => {}
+                        other => return Err(Fail::new("two-in-one-write", format!("the value serialized twice on the same writer: counts {:?}, {} bytes written, one stream has {}", other.map(|r| r.map_err(|e| format!("{:?}", e))), two.len(), bytes.len()))),
+                    }
+                    let mut cur = std::io::Cursor::new(&two[..]);
+                    for n in 0..2 {
+                        match guard(|| subj.full(&mut cur)) {
+                            Ok(Ok(x)) if x == *v && cur.position() as usize == (n + 1) * bytes.len() => {}
+                            other => return Err(Fail::new("two-in-one-read", format!("two streams of the value on one reader: reading stream #{} gave {:?} (reader at {} of {})", n, other.map(|r| r.map(|x| x.show()).map_err(|e| format!("{:?}", e))), cur.position(), two.len()))),
+                        }
+                    }
+                }
+                Ok(())
             }
         }
     });
